@@ -15,6 +15,8 @@ import (
 	"golang.org/x/tools/go/packages"
 )
 
+const modulePath = "github.com/aergoio/aergo/v2"
+
 type FuncInfo struct {
 	Obj  *types.Func
 	Decl *ast.FuncDecl
@@ -47,6 +49,13 @@ type Engine struct {
 	repoDir   string
 	verbose   bool
 	knownFindings []*KnownFinding
+	globalInvs    []*GlobalInv
+	globalInit    map[types.Object]globalInitExpr
+}
+
+type globalInitExpr struct {
+	expr ast.Expr
+	pkg  *packages.Package
 }
 
 func newEngine(repo string) *Engine {
@@ -121,8 +130,27 @@ func (e *Engine) load(patterns []string) error {
 		if p.TypesInfo == nil {
 			continue
 		}
+		if !strings.HasPrefix(p.PkgPath, modulePath) {
+			continue // bodies of dependencies are never inlined: contract, model or havoc
+		}
 		for _, f := range p.Syntax {
 			for _, d := range f.Decls {
+				if gd, ok := d.(*ast.GenDecl); ok && gd.Tok == token.VAR {
+					for _, sp := range gd.Specs {
+						vs := sp.(*ast.ValueSpec)
+						if len(vs.Values) != len(vs.Names) {
+							continue
+						}
+						for i, n := range vs.Names {
+							if o := p.TypesInfo.Defs[n]; o != nil {
+								if e.globalInit == nil {
+									e.globalInit = map[types.Object]globalInitExpr{}
+								}
+								e.globalInit[o] = globalInitExpr{vs.Values[i], p}
+							}
+						}
+					}
+				}
 				fd, ok := d.(*ast.FuncDecl)
 				if !ok || fd.Body == nil {
 					continue
@@ -218,6 +246,9 @@ func externKeyOf(f *types.Func) string {
 			if n.Obj().Pkg() != nil {
 				p2 = n.Obj().Pkg().Path()
 			}
+			if p2 == "" {
+				return "extern:" + n.Obj().Name() + "." + f.Name()
+			}
 			return "extern:" + p2 + "." + n.Obj().Name() + "." + f.Name()
 		}
 	}
@@ -294,6 +325,7 @@ func (e *Engine) addContractFile(cf *ContractFile) error {
 	}
 	e.lemmas = append(e.lemmas, cf.Lemmas...)
 	e.axioms = append(e.axioms, cf.Axioms...)
+	e.globalInvs = append(e.globalInvs, cf.GlobalInvs...)
 	return nil
 }
 
